@@ -17,6 +17,8 @@ build() { if [ "$1" = C20 ]; then (cd "$W/verif/sim-threads" && cargo build --re
 i=0
 for d in "$HERE"/seeded/*/; do
   k=$(basename "$d"); p=${k%%-*}
+  # DIAG_ONLY=<extended regexp>: only the changes whose id matches
+  if [ -n "${DIAG_ONLY:-}" ] && ! echo "$k" | grep -Eq "$DIAG_ONLY"; then continue; fi
   i=$((i+1)); [ $((i % NS)) -eq "$SH" ] || continue
   git -C "$W/repo" apply "$d/patch.diff" || { printf '%s\tAPPLY-FAILED\n' "$k" >> "$out"; continue; }
   if build $p; then
